@@ -14,10 +14,31 @@ fn chain(vals: &[Felt]) -> Felt {
 
 #[derive(Debug, Clone, PartialEq)]
 pub enum Hashes {
-    /// (program hash, output hash)
-    Pair(Felt, Felt),
+    /// every (program hash, output hash) pair that a by-address reading of the main page
+    /// supports (more than one only when a program / output address appears twice with
+    /// different values)
+    Pairs(Vec<(Felt, Felt)>),
     /// the main page does not hold the program / output cells at their addresses
     Malformed(String),
+}
+
+fn combos(cells: &[Vec<Felt>]) -> Option<Vec<Vec<Felt>>> {
+    let mut out: Vec<Vec<Felt>> = vec![Vec::with_capacity(cells.len())];
+    for c in cells {
+        let mut next = Vec::new();
+        for o in &out {
+            for v in c {
+                let mut n = o.clone();
+                n.push(*v);
+                next.push(n);
+            }
+        }
+        if next.len() > 16 {
+            return None;
+        }
+        out = next;
+    }
+    Some(out)
 }
 
 /// Program = values at addresses initial_pc .. initial_fp-3 (inclusive), output = values at
@@ -30,16 +51,13 @@ pub fn expected_hashes(pi: &PublicInput) -> Hashes {
     };
     let initial_pc = program.0;
     let initial_fp = execution.0;
-    // address -> value; a repeated address with a different value is malformed
-    let mut mem: BTreeMap<BigUint, Felt> = BTreeMap::new();
+    // address -> distinct values found at that address
+    let mut mem: BTreeMap<BigUint, Vec<Felt>> = BTreeMap::new();
     for c in pi.main_page.iter() {
-        let a = f2b(&c.address);
-        if let Some(prev) = mem.get(&a) {
-            if *prev != c.value {
-                return Hashes::Malformed(format!("address {} appears twice with different values", a));
-            }
+        let e = mem.entry(f2b(&c.address)).or_default();
+        if !e.contains(&c.value) {
+            e.push(c.value);
         }
-        mem.insert(a, c.value);
     }
     let three = BigUint::from(3u32);
     if initial_fp < &initial_pc + &three {
@@ -53,7 +71,7 @@ pub fn expected_hashes(pi: &PublicInput) -> Hashes {
     let mut a = initial_pc.clone();
     for _ in 0..n_prog {
         match mem.get(&a) {
-            Some(v) => prog.push(*v),
+            Some(v) => prog.push(v.clone()),
             None => return Hashes::Malformed(format!("program cell at address {} missing from the main page", a)),
         }
         a += BigUint::one();
@@ -69,11 +87,115 @@ pub fn expected_hashes(pi: &PublicInput) -> Hashes {
     let mut a = output.0.clone();
     for _ in 0..n_out {
         match mem.get(&a) {
-            Some(v) => out.push(*v),
+            Some(v) => out.push(v.clone()),
             None => return Hashes::Malformed(format!("output cell at address {} missing from the main page", a)),
         }
         a += BigUint::one();
     }
     let _ = BigUint::zero();
-    Hashes::Pair(chain(&prog), chain(&out))
+    match (combos(&prog), combos(&out)) {
+        (Some(ps), Some(os)) => {
+            let mut v = Vec::new();
+            for p in &ps {
+                for o in &os {
+                    v.push((chain(p), chain(o)));
+                }
+            }
+            Hashes::Pairs(v)
+        }
+        _ => Hashes::Malformed("too many conflicting cells at program / output addresses".into()),
+    }
+}
+
+// ------------------------------------------------------------------ validity (C14)
+/// (segment index, memory cells per instance, trace rows per instance)
+pub struct BuiltinRule {
+    pub name: &'static str,
+    pub segment: usize,
+    pub cells: u64,
+    pub row_ratio: u64,
+}
+pub struct LayoutRules {
+    pub name: &'static str,
+    pub n_segments: usize,
+    pub cpu_component_step: u64,
+    pub builtins: Vec<BuiltinRule>,
+}
+fn br(name: &'static str, segment: usize, cells: u64, row_ratio: u64) -> BuiltinRule {
+    BuiltinRule { name, segment, cells, row_ratio }
+}
+/// Layout definitions (Cairo layout specifications), stated here independently of the code.
+pub fn rules(layout: &str) -> Option<LayoutRules> {
+    let (n, b) = match layout {
+        "dex" | "small" => (6, vec![br("pedersen", 3, 3, 128), br("range_check", 4, 1, 128), br("ecdsa", 5, 2, 8192)]),
+        "recursive" => (6, vec![br("pedersen", 3, 3, 2048), br("range_check", 4, 1, 128), br("bitwise", 5, 5, 128)]),
+        "recursive_with_poseidon" => (7, vec![br("pedersen", 3, 3, 4096), br("range_check", 4, 1, 256), br("bitwise", 5, 5, 256), br("poseidon", 6, 6, 1024)]),
+        "starknet" => (9, vec![br("pedersen", 3, 3, 512), br("range_check", 4, 1, 256), br("ecdsa", 5, 2, 32768), br("bitwise", 6, 5, 1024), br("ec_op", 7, 7, 16384), br("poseidon", 8, 6, 512)]),
+        "starknet_with_keccak" => (10, vec![br("pedersen", 3, 3, 512), br("range_check", 4, 1, 256), br("ecdsa", 5, 2, 32768), br("bitwise", 6, 5, 1024), br("ec_op", 7, 7, 16384), br("keccak", 8, 16, 32768), br("poseidon", 9, 6, 512)]),
+        _ => return None,
+    };
+    Some(LayoutRules { name: match layout { "dex" => "dex", "small" => "small", "recursive" => "recursive", "recursive_with_poseidon" => "recursive_with_poseidon", "starknet" => "starknet", _ => "starknet_with_keccak" }, n_segments: n, cpu_component_step: 1, builtins: b })
+}
+
+#[derive(Debug, Clone, PartialEq)]
+pub enum Validity {
+    Valid,
+    Invalid(String),
+    /// the property does not decide this input (e.g. range-check min == max)
+    Unjudged(String),
+}
+
+/// The C14 validity predicate on non-negative integers for the six static layouts.
+/// `log_trace` is the trace-size exponent of the domains handed to validation.
+pub fn validity(r: &LayoutRules, pi: &PublicInput, log_trace: &BigUint) -> Validity {
+    let inv = |s: String| Validity::Invalid(s);
+    // step count: 2^log_n_steps * 16 * step == 2^log_trace
+    let lns = f2b(&pi.log_n_steps);
+    if lns >= BigUint::from(80u32) {
+        return inv("log_n_steps >= 80".into());
+    }
+    let step_log = r.cpu_component_step.trailing_zeros() as u64;
+    if &lns + BigUint::from(4 + step_log) != *log_trace {
+        return inv("step count does not match the trace length".into());
+    }
+    if pi.segments.len() != r.n_segments {
+        return inv("segment count".into());
+    }
+    let (mn, mx) = (f2b(&pi.range_check_min), f2b(&pi.range_check_max));
+    if mn > mx {
+        return inv("range-check min > max".into());
+    }
+    if mx > BigUint::from(65535u32) {
+        return inv("range-check max above 2^16-1".into());
+    }
+    let code = BigUint::from_bytes_be(r.name.as_bytes());
+    if f2b(&pi.layout) != code {
+        return inv("layout code".into());
+    }
+    let t = log_trace.to_u32().unwrap_or(u32::MAX);
+    let seg = |i: usize| (f2b(&pi.segments[i].begin_addr), f2b(&pi.segments[i].stop_ptr));
+    let (ob, os) = seg(2);
+    if os < ob {
+        return inv("output stop below begin".into());
+    }
+    for b in &r.builtins {
+        let (bg, st) = seg(b.segment);
+        if st < bg {
+            return inv(format!("{} stop below begin", b.name));
+        }
+        let used = &st - &bg;
+        if !(&used % BigUint::from(b.cells)).is_zero() {
+            return inv(format!("{} usage is not a whole number of instances", b.name));
+        }
+        let uses = &used / BigUint::from(b.cells);
+        let ratio_log = b.row_ratio.trailing_zeros();
+        let copies = if t >= ratio_log && t - ratio_log < 250 { BigUint::one() << (t - ratio_log) } else { BigUint::zero() };
+        if uses > copies {
+            return inv(format!("{} uses more instances than the trace holds", b.name));
+        }
+    }
+    if mn == mx {
+        return Validity::Unjudged("range-check min == max".into());
+    }
+    Validity::Valid
 }
